@@ -61,6 +61,7 @@ fn main() {
   }
   match prop.as_str() {
     "c15" => props::c15::run(&cfg),
+    "c02" => props::c02::run(&cfg),
     _ => {
       eprintln!("unknown property {}", prop);
       std::process::exit(2);
